@@ -7,9 +7,12 @@ Over M-ACK (`Slock.Ack`, lean/Slock/Model/Ack.lean): the lock engine for the key
 (`ReplicationAckDB`) + `UpdateDBAckCount`. One event = one complete call of a real entry point (see the model's header).
 `runOut db evs` is the run with the replies of every event; `trace` adds, for each event, the events up to and including it.
 
-What is proved for EVERY event sequence (induction over events, invariants `InvA`, `InvK`), what holds for the guarded sequences only
-(`Guarded`, invariant `QR`), and where the unchanged code violates the statement of the property (`…_violated`, concrete runs decided on
-the executable model; each is also a reproducer against the real code, see tools/props/c11.py).
+The model is the code AFTER the three repairs e4ad793 (re-entrant require-ack LOCK journals its update record without the ack
+registration), 804e6dc (the unlock-first path honours `ackCount != 0xff`) and f622546 (`ProcessLeaderPushLock` does not re-arm a lock that
+is no longer held). Everything here is proved for EVERY event sequence (induction over events; the invariants `InvA`, `InvK`, `InvQ`
+together, `Inv3`) — no guard on the runs is left. Where the code still violates the statement of the property: `…_violated`, concrete
+runs decided on the executable model; each is also a reproducer against the real code (tools/props/c11.py, corpus/ack.ops). What the
+repairs removed is stated positively (`C11_ack_waiting_unlock_first`, `C11_exactly_one_outcome`, `C11_repaired_runs`).
 -/
 namespace Slock.C11
 open Slock.Ack
@@ -42,7 +45,7 @@ report (own flush or follower answer) for a record id `id` such that the run so 
 from another (next theorem and the remark after it). Requires `reqAcks cfg < 255` (≤ 253 followers: `db.ackCount` is a uint8 and 0xff means "not pending"). -/
 theorem C11_succed_only_after_quorum_partial (cfg : Cfg) (now : Nat) (hc : reqAcks cfg < NOACK) (evs : List Ev) :
     ∀ t ∈ trace (DB.init cfg now) [] evs, ∀ rp ∈ t.2.2, rp.result = R_SUCCED → rp.ack = true → SuccOk cfg t rp :=
-  trace_succ evs [] (DB.init cfg now) (InvA.init cfg now) (InvK.init cfg now hc) (by intro e he; simp [DB.init] at he)
+  trace_succ evs [] (DB.init cfg now) (Inv3.init cfg now hc) (by intro e he; simp [DB.init] at he)
 
 /-- **The full statement is false (own log).** Majority mode, two followers (`reqAcks = 2`): two follower answers make the lock SUCCED
 although the leader's own flush of the record was never reported. -/
@@ -62,11 +65,14 @@ theorem C11_duplicate_answers_are_counted :
 def lockA2 : Cmd := { lockA with req := 2, rcount := 1 }
 
 /-- **The full statement is false (re-entrant LOCK).** Once the hold is acknowledged, a re-entrant LOCK with the require-ack flag is
-answered SUCCED inside the call — before its record is journalled, flushed or acknowledged — and when the acknowledgement of that record
-arrives `DoAckLock` answers the SAME request a second time (LOCKED_ERROR). -/
+answered SUCCED inside the call — before its update record is journalled, flushed or acknowledged by anyone. Since e4ad793 that record
+goes to the journal without the ack registration (no lock pointer, no table entry), so the request is answered exactly once (it used
+to be answered a second time, LOCKED_ERROR, or to crash the leader) — but still without waiting. -/
 theorem C11_succed_reentrant_violated :
     sig ⟨0, false⟩ [.lock { lockA with rcount := 1 }, .push 5, .aofed 1 true, .lock lockA2, .push 5, .aofed 2 true] =
-      [[], [], [(1, 1, R_SUCCED)], [(1, 2, R_SUCCED)], [], [(1, 2, R_LOCKED_ERROR)]] := by decide
+      [[], [], [(1, 1, R_SUCCED)], [(1, 2, R_SUCCED)], [], []] ∧
+    (run (DB.init ⟨0, false⟩ 100) [.lock { lockA with rcount := 1 }, .push 5, .aofed 1 true, .lock lockA2]).journal.map (fun j => (j.isLock, j.hid)) = [(true, none)] ∧
+    (run (DB.init ⟨0, false⟩ 100) [.lock { lockA with rcount := 1 }, .push 5, .aofed 1 true, .lock lockA2, .push 5]).tab = [] := by decide
 
 /-! ## C11_ack_waiting -/
 
@@ -83,12 +89,14 @@ theorem C11_ack_waiting (db : DB) (c : Cmd) (h : Rec) (hl : db.leader = true) (h
 /-- an UNLOCK by another LockId with the unlock-first flag -/
 def unlockFirst : Cmd := { req := 2, conn := 2, flag := UF_FIRST, lockId := 9, key := 5, tflag := 0, timeout := 0, expried := 0, count := 0, rcount := 0 }
 
-/-- **…but not on the unlock-first path.** An UNLOCK with the unlock-first flag takes `currentLock` without the pending test: it is
-answered SUCCED, the pending hold is gone; the requester of the ack lock is answered LOCKED_ERROR when the journal delivers the two
-records, although nothing was acknowledged and its lock was never reported as failed before. -/
-theorem C11_ack_waiting_unlock_first_violated :
-    sig ⟨1, false⟩ [.lock lockA, .unlock unlockFirst, .push 5, .push 5] = [[], [(2, 2, R_SUCCED)], [], [(1, 1, R_LOCKED_ERROR)]] ∧
-    ((run (DB.init ⟨1, false⟩ 100) [.lock lockA, .unlock unlockFirst]).holders 5).length = 0 := by decide
+/-- **…and on the unlock-first path** (804e6dc; the unchanged code took `currentLock` without the pending test: SUCCED, the pending hold
+gone, its requester answered LOCKED_ERROR or never). An UNLOCK with the unlock-first flag that finds no hold under its own LockId and
+whose `currentLock` is ack-pending is answered LOCK_ACK_WAITING and changes nothing but the UnlockErrorCount statistic. -/
+theorem C11_ack_waiting_unlock_first (db : DB) (c : Cmd) (h : Rec) (hl : db.leader = true) (hk : (db.getKey c.key).locked > 0)
+    (hf : findHolder db c.key c.lockId = none) (hu : has c.flag UF_FIRST = true) (hh : (db.holders c.key).head? = some h) (hp : h.pending = true) :
+    opUnlock db c = (db.bumpErr, [mkReply c R_ACK_WAITING (db.getKey c.key).locked (db.getR h.hid).depth (db.curData c.key)]) ∧
+    db.bumpErr.keys = db.keys ∧ db.bumpErr.recs = db.recs ∧ db.bumpErr.tab = db.tab ∧ db.bumpErr.journal = db.journal :=
+  ⟨unlock_first_ack_waiting db c h hl hk hf hu hh hp, rfl, rfl, rfl, rfl⟩
 
 /-! ## C11_failure_rolls_back -/
 
@@ -172,16 +180,6 @@ and changes nothing but the record's timeout tombstone: late acknowledgements af
 theorem C11_single_shot (db : DB) (hid : Nat) (ok : Bool) (hp : (db.getR hid).pending = false) :
     ackDone db hid ok = (db.modR hid (fun r => { r with timeouted := true }), []) := ackDone_settled db hid ok hp
 
-/-- **Conservation, guarded runs.** For every run from the initial state in which (a) no UNLOCK takes the unlock-first path onto an
-ack-pending hold and (b) every LOCK record the journal delivers to the leader belongs to a lock that is still waiting for it (`Guarded`):
-(terminal replies for request id x) + (records still owing x an answer: queued or ack-pending) = (requests issued with id x). -/
-theorem C11_exactly_one_outcome_partial (cfg : Cfg) (now : Nat) (hc : reqAcks cfg < NOACK) (evs : List Ev) (x : Rid)
-    (hg : Guarded (DB.init cfg now) evs) :
-    answered x (runOut (DB.init cfg now) evs).2.flatten + openN x (runOut (DB.init cfg now) evs).1 = issued x evs := by
-  have := (runOut_cons x evs (InvA.init cfg now) (InvQ.init cfg now hc) hg).2
-  have e : openN x (DB.init cfg now) = 0 := rfl
-  omega
-
 theorem openN_nonneg (x : Rid) (db : DB) : 0 ≤ openN x db := by
   unfold openN
   induction db.recs with
@@ -193,37 +191,48 @@ theorem openN_nonneg (x : Rid) (db : DB) : 0 ≤ openN x db := by
 
 theorem answered_nonneg (x : Rid) (out : List Reply) : 0 ≤ answered x out := by unfold answered; omega
 
+/-- **Conservation, every run** (since f622546 and 804e6dc no guard on the run is needed). For every run from the initial state and every
+request id x: (terminal replies for x) + (records still owing x an answer: queued or ack-pending) = (requests issued with id x).
+The step that used to break it — `ProcessLeaderPushLock` arming the counter of a lock that had already timed out, been unlocked or been
+settled — is excluded by the invariant `InvK.kj`: a lock whose LOCK record is still under way in the journal is dead or still waiting for it,
+and a dead one is no longer armed. -/
+theorem C11_exactly_one_outcome (cfg : Cfg) (now : Nat) (hc : reqAcks cfg < NOACK) (evs : List Ev) (x : Rid) :
+    answered x (runOut (DB.init cfg now) evs).2.flatten + openN x (runOut (DB.init cfg now) evs).1 = issued x evs := by
+  have := (runOut_cons x evs (Inv3.init cfg now hc)).2
+  have e : openN x (DB.init cfg now) = 0 := rfl
+  omega
+
 /-- a request id issued once: never more than one terminal reply; exactly one as soon as nothing is queued or pending for it — SUCCED xor
-an error, none lost, none duplicated, whatever the order of acknowledgements, timeouts and demotions (within guarded runs). -/
-theorem C11_exactly_one_outcome_guarded (cfg : Cfg) (now : Nat) (hc : reqAcks cfg < NOACK) (evs : List Ev) (x : Rid)
-    (hg : Guarded (DB.init cfg now) evs) (hu : issued x evs = 1) :
+an error, none lost, none duplicated, whatever the order of acknowledgements, timeouts, unlocks and demotions. -/
+theorem C11_exactly_one_outcome_once (cfg : Cfg) (now : Nat) (hc : reqAcks cfg < NOACK) (evs : List Ev) (x : Rid) (hu : issued x evs = 1) :
     answered x (runOut (DB.init cfg now) evs).2.flatten ≤ 1 ∧
     (openN x (runOut (DB.init cfg now) evs).1 = 0 → answered x (runOut (DB.init cfg now) evs).2.flatten = 1) := by
-  have := C11_exactly_one_outcome_partial cfg now hc evs x hg
+  have := C11_exactly_one_outcome cfg now hc evs x
   have := openN_nonneg x (runOut (DB.init cfg now) evs).1
   constructor
   · omega
   · intro h; omega
 
-/-- **The unguarded statement is false: duplicated reply.** The ack wait times out (Timeout 0: the next tick) before the journal has
-delivered the LOCK record; the late delivery re-arms `ackCount` on the dead lock object and the UNLOCK record behind it makes
-`DoAckLock` answer the request again: TIMEOUT, then LOCKED_ERROR. -/
-theorem C11_exactly_one_outcome_violated :
-    sig ⟨1, false⟩ [.lock { lockA with timeout := 0 }, .tick, .push 5, .push 5] = [[], [(1, 1, R_TIMEOUT)], [], [(1, 1, R_LOCKED_ERROR)]] := by decide
-
-/-- **…and lost reply.** The LOCK record is registered, an unlock-first UNLOCK removes the pending hold, the UNLOCK record then settles the
-entry silently: request 1 is never answered (its timeout is cancelled too). -/
-theorem C11_reply_lost_violated :
+/-- **The three runs that broke it on the unchanged code, now.** (1) The ack wait times out before the journal has delivered the LOCK
+record: TIMEOUT, and the late delivery sends nothing more and leaves no table entry (was: TIMEOUT then LOCKED_ERROR). (2) Unlock-first
+onto the fresh pending hold: refused, the hold stays (was: SUCCED, hold gone, requester answered LOCKED_ERROR). (3) The same after the
+record was registered: refused; the requester is answered by its own timeout, or SUCCED when the reports arrive (was: never answered). -/
+theorem C11_repaired_runs :
+    sig ⟨1, false⟩ [.lock { lockA with timeout := 0 }, .tick, .push 5, .push 5] = [[], [(1, 1, R_TIMEOUT)], [], []] ∧
+    (run (DB.init ⟨1, false⟩ 100) [.lock { lockA with timeout := 0 }, .tick, .push 5, .push 5]).tab = [] ∧
+    sig ⟨1, false⟩ [.lock lockA, .unlock unlockFirst, .push 5, .push 5] = [[], [(2, 2, R_ACK_WAITING)], [], []] ∧
+    ((run (DB.init ⟨1, false⟩ 100) [.lock lockA, .unlock unlockFirst]).holders 5).length = 1 ∧
     sig ⟨1, false⟩ [.lock lockA, .push 5, .unlock unlockFirst, .push 5, .tick, .tick, .tick, .tick, .tick, .tick, .tick] =
-      [[], [], [(2, 2, R_SUCCED)], [], [], [], [], [], [], [], []] ∧
-    openN (1, 1) (runOut (DB.init ⟨1, false⟩ 100) [.lock lockA, .push 5, .unlock unlockFirst, .push 5]).1 = 0 := by decide
+      [[], [], [(2, 2, R_ACK_WAITING)], [], [], [], [], [], [], [(1, 1, R_TIMEOUT)], []] ∧
+    sig ⟨1, false⟩ [.lock lockA, .push 5, .unlock unlockFirst, .aofed 1 true, .acked 1 1 true] =
+      [[], [], [(2, 2, R_ACK_WAITING)], [], [(1, 1, R_SUCCED)]] := by decide
 
 /-! ## C11_tables_drain -/
 
 /-- **What is proved about the table, every run** (`InvA`, `InvK` hold in every reachable state): records referenced by the table or by
 a LOCK journal record exist and are not queued requests; a registered pending lock has a positive counter; a fresh ack-pending hold is
 referenced by at most ONE thing — its LOCK record still in the journal, or its table entry — and then its counter plus the positive
-reports noted in that entry is exactly the required number. Demotion / flush empty the table; a report for an entry whose lock is
+reports noted in that entry is exactly the required number; a lock whose LOCK record is still under way is dead or still pending (`kj`). Demotion / flush empty the table; a report for an entry whose lock is
 already settled removes the entry and sends nothing. -/
 theorem C11_tables_drain_partial (cfg : Cfg) (now : Nat) (hc : reqAcks cfg < NOACK) (evs : List Ev) :
     let db := run (DB.init cfg now) evs
@@ -231,12 +240,9 @@ theorem C11_tables_drain_partial (cfg : Cfg) (now : Nat) (hc : reqAcks cfg < NOA
     (∀ o, (opFailAll db o).1.tab = []) ∧
     (∀ id who ok e, db.findId id = some e → (db.getR e.hid).pending = false →
       (opReport db id who ok).2 = [] ∧ (opReport db id who ok).1.tab = db.tab.filter (·.id != id)) := by
-  have ha : InvA (run (DB.init cfg now) evs) := (InvA.init cfg now).run evs
-  have hk : InvK (run (DB.init cfg now) evs) := by
-    unfold run
-    have := foldl_inv (fun d : DB => InvA d ∧ InvK d) (fun d e => (step d e).1) (fun d e hd => ⟨hd.1.step e, InvK.step hd.1 hd.2 e⟩) evs
-      (DB.init cfg now) ⟨InvA.init cfg now, InvK.init cfg now hc⟩
-    exact this.2
+  have h3 := (Inv3.init cfg now hc).run evs
+  have ha : InvA (run (DB.init cfg now) evs) := h3.a
+  have hk : InvK (run (DB.init cfg now) evs) := h3.k
   refine ⟨ha, hk, fun o => rfl, ?_⟩
   intro id who ok e he hp
   unfold opReport
@@ -261,26 +267,14 @@ example : (dbPending.getR 1).pending = true ∧ (dbPending.getR 1).expried = tru
     (dbPending.getR 1).ack = 2 ∧ dbPending.tab.length = 1 ∧ dbPending.leader = true ∧ (dbPending.getKey 5).locked > 0 ∧
     findHolder dbPending 5 7 = some (dbPending.getR 1) := by decide
 
-/-- a guarded run that settles both ways: success for request 1; request 3 fails by a negative follower answer; conservation closes -/
+/-- a run that settles both ways: success for request 1; request 3 fails by a negative follower answer; conservation closes -/
 def lockB : Cmd := { lockA with req := 3, conn := 2, lockId := 8, key := 6 }
 def goodRun : List Ev := [.lock lockA, .push 5, .aofed 1 true, .lock lockB, .acked 1 1 true, .push 6, .acked 2 1 false, .tick]
 
-def guardedB : DB → List Ev → Bool
-  | _, [] => true
-  | db, e :: es => evOk db e && guardedB (step db e).1 es
-
-theorem guardedB_sound : ∀ (evs : List Ev) (db : DB), guardedB db evs = true → Guarded db evs := by
-  intro evs
-  induction evs with
-  | nil => intro db _; exact True.intro
-  | cons e es ih =>
-    intro db h
-    unfold guardedB at h
-    simp at h
-    exact ⟨h.1, ih _ h.2⟩
-
-example : Guarded (DB.init ⟨1, false⟩ 100) goodRun := guardedB_sound _ _ (by decide)
 example : sig ⟨1, false⟩ goodRun = [[], [], [], [], [(1, 1, R_SUCCED)], [], [(2, 3, R_ERROR)], []] ∧ issued (1, 1) goodRun = 1 ∧ issued (2, 3) goodRun = 1 := by decide
+
+/-- the unlock-first theorem applies to `dbPending` -/
+example : findHolder dbPending 5 9 = none ∧ has unlockFirst.flag UF_FIRST = true ∧ (dbPending.holders 5).head? = some (dbPending.getR 1) := by decide
 
 /-- the failure theorem applies to `dbPending` (and the wake pass it starts serves a queued request) -/
 example : (ackDone dbPending 1 false).2.map (fun r => (r.conn, r.req, r.result)) = [(1, 1, R_ERROR)] ∧
